@@ -464,7 +464,23 @@ def native_search(test_name, rounds=None, seed=0, timeout=5400):
         return None, "native search timed out"
     # a hit is the first line of a panic message of a test that RAN (a compiler diagnostic that quotes the source
     # of a search test is not a hit)
-    m = re.search(r"^VERIF-SEARCH-HIT ([^\n]*)", out, re.M)
+    # several search tests may share the filter and each may report a hit: prefer one whose obligation is not a
+    # recorded finding (KNOWN_FINDINGS.txt), so that a recorded defect never hides a new one
+    hits = re.findall(r"^VERIF-SEARCH-HIT ([^\n]*)", out, re.M)
+    known = set()
+    try:
+        for line in open(os.path.join(ROOT, "KNOWN_FINDINGS.txt")):
+            if line.startswith("finding:"):
+                mo = re.search(r"obligation=(\S+)", line)
+                if mo:
+                    known.add(mo.group(1))
+    except OSError:
+        pass
+    fresh = [h for h in hits if h.split()[0] not in known]
+    class _M:  # minimal match-like object
+        def __init__(self, t): self.t = t
+        def group(self, i): return self.t
+    m = _M((fresh or hits)[0]) if hits else None
     ran = re.search(r"test result: (\w+)\. (\d+) passed; (\d+) failed", out)
     if "could not compile" in out or not re.search(r"^running \d+ tests?", out, re.M):
         return None, "native search did not run (build failed): " + out[-2500:]
